@@ -34,6 +34,15 @@ PROPS = {
                 "of the same stream + ordering/extent rules + the C01 excerpt oracle; non-trivial = at least one record emitted and at least one cut",
         "assumptions": ["unsigned streams (edge-multi ignores signedness)", "staircase streams with sub-threshold ripple; 1-3 edges"],
     },
+    "C12": {
+        "pkg": ".", "hdir": "dastard", "harness": DASTARD_COMMON + ["zz_verif_c12_test.go"], "test": "TestVerifC12",
+        "quick": T(16, 60), "thorough": T(16, 600),
+        "rule": "one execution = one (option set, raw sequence) run unsplit and under every split into calls on the real PhaseUnwrapper; "
+                "oracle = integer arithmetic of the property (modulo-quantum, step window, reset timing, split invariance); "
+                "non-trivial = the output left the home offset at least once (a wrap was removed)",
+        "assumptions": ["bias restricted to |bias| <= quarter quantum (a single +-quantum correction cannot reach the window otherwise)",
+                        "reset boundary tolerates resetAfter vs resetAfter+1 (DESIGN 7.6)", "values from a boundary alphabet, not all 2^16"],
+    },
     "C18": {
         "pkg": "ringbuffer", "hdir": "ringbuffer", "harness": ["zz_verif_c18_test.go"], "test": "TestVerifC18",
         "quick": T(16, 60), "thorough": T(16, 600),
